@@ -8,6 +8,7 @@ import props_cl
 import props_dq
 import props_conc
 import props_obj
+import props_fault
 import concengine
 
 SEQ_PLANS = {}
@@ -135,6 +136,7 @@ def _c10_lists(tier, seed):
 
 
 COMPOSITE = {"C10": [_c10_plan, _c10_lists]}
+COMPOSITE["C09"] = [(lambda i: (lambda tier, seed: props_fault.plans(tier, seed)[i]))(i) for i in range(6)]
 
 
 def baseline_off():
